@@ -580,6 +580,15 @@ func getNillableArray[T any](
 		array = arr
 	case []immutable.Option[T]:
 		array = val
+	case []T:
+		// a slice of plain values is a nillable array without nil elements (like in getArray,
+		// it must not be dropped silently)
+		arr := make([]immutable.Option[T], len(val))
+		for i, arrItem := range val {
+			arr[i] = immutable.Some(arrItem)
+		}
+
+		array = arr
 	}
 	if size != 0 && len(array) != size {
 		return nil, NewErrArraySizeMismatch(array, size)
